@@ -24,7 +24,7 @@ if [ $CLEAN -ne 0 ] || [ $BUILD -ne 0 ] || [ $SUITE -ne 0 ] || [ $MUT -eq 0 ]; t
 # 3. the checks against the change: applied in the scratch worktree, which the checks build from via VERIF_REPO
 #    (equivalent to `git -C /repo apply`; /repo itself stays untouched so that other runs are not disturbed)
 cd $W && git apply $M/patch.diff || { echo "patch does not apply"; exit 2; }
-cd /verif
+cd ${VERIF_DIR:-/verif}
 for c in $CHECKS; do
   VERIF_REPO=$W ./check $c > $M/check-$c.log 2>&1; RC=$?
   echo "check $c on $ID m$K: exit $RC  $(grep -c '^VIOLATION' $M/check-$c.log) violation line(s)  $(grep -m1 'shape=' $M/check-$c.log | sed 's/^ *//' | cut -c1-160)"
